@@ -950,7 +950,7 @@ def check_case(ctx: runner.Ctx, case):  # noqa: C901, PLR0912, PLR0915
         ctx.count("excluded_known")
     if verdict == "unspecified":
         ctx.count("unspecified_configuration")
-        ctx.count("unspecified:" + reason.split(":")[0][:60])
+        ctx.count("unspecified:" + _category(reason))
 
     def viol(kind, discr, detail):
         ctx.violation(kind, discr, case, f"{detail} | api={api['kind']} verdict={verdict} {reason}")
@@ -1081,7 +1081,7 @@ def check_case(ctx: runner.Ctx, case):  # noqa: C901, PLR0912, PLR0915
         expected = plan(src_obj, ctxvals)
     except RefUnspec as u:
         ctx.count("unspecified_input")
-        ctx.count("unspecified:" + str(u)[:60])
+        ctx.count("unspecified:" + _category(str(u)))
         return
     except ConstructorRejects as c:
         # the destination class itself refuses the linked values (validating constructor): the converter calls the same
@@ -1126,6 +1126,13 @@ def same_signature(a: inspect.Signature, b: inspect.Signature) -> bool:
         if pa.default is not pb.default and not (type(pa.default) is type(pb.default) and pa.default == pb.default):
             return False
     return True
+
+
+def _category(reason: str) -> str:
+    import re  # noqa: PLC0415
+    reason = re.sub(r"no coercion .*", "no coercion for a non-scalar pair (cross-talk of string predicates)", reason)
+    reason = re.sub(r"M\d+\.\w+: ", "", reason)
+    return re.sub(r"'\w+'", "'_'", reason)[:90]
 
 
 def site(e) -> str:
